@@ -79,14 +79,18 @@ package nsx
 // group whose id exists on the device, whatever the device group contains.
 //vc:spec macro idFreeOnDevice(n string, m map[string]*nsxGroup) bool = !(n in m) || m[n] == nil
 //vc:func genUniqGroupNames
-//vc:  invariant[C04] 1 "for _, g := range b" @noClashSoFar -1 <= rangeindex && (forall k int :: { b[k] } 0 <= k && k <= rangeindex ==> idFreeOnDevice(b[k].Id, a))
-//vc:  invariant[C04] 2 "for i := 1; ; i++" @idsUntouchedWhileSearching forall q *nsxGroup :: { q.Id } q.Id == loopold(q.Id)
+//vc:  invariant[C04] 1 "for _, g := range b" true
+//vc:  invariant[C04] 2 "for _, g := range b" @noClashSoFar -1 <= rangeindex && (forall k int :: { b[k] } 0 <= k && k <= rangeindex ==> idFreeOnDevice(b[k].Id, a))
+//vc:  invariant[C04] 3 "for i := 1; ; i++" @idsUntouchedWhileSearching forall q *nsxGroup :: { q.Id } q.Id == loopold(q.Id)
+//vc:  assert[C04] at "g.Id = newId" @newIdNotATargetId !((newId in bIds) && bIds[newId])
 //vc:  ensures[C04] @netspocGroupIdsFree forall k int :: { b[k] } 0 <= k && k < len(b) ==> idFreeOnDevice(b[k].Id, a)
 // same for rules
 //vc:func genUniqRuleNames
 //vc:  invariant[C04] 1 "for _, ru := range a" @deviceIdsCollected -1 <= rangeindex && (forall j int :: { a[j] } 0 <= j && j <= rangeindex ==> (a[j].Id in aIds) && aIds[a[j].Id])
-//vc:  invariant[C04] 2 "for _, ru := range b" @noRuleClashSoFar -1 <= rangeindex && (forall k int :: { b[k] } 0 <= k && k <= rangeindex ==> !((b[k].Id in aIds) && aIds[b[k].Id]))
-//vc:  invariant[C04] 3 "for i := 1; ; i++" @ruleIdsUntouchedWhileSearching forall q *nsxRule :: { q.Id } q.Id == loopold(q.Id)
+//vc:  invariant[C04] 2 "for _, ru := range b" @deviceIdsStillCollected forall j int :: { a[j] } 0 <= j && j < len(a) ==> (old(a[j].Id) in aIds) && aIds[old(a[j].Id)]
+//vc:  invariant[C04] 3 "for _, ru := range b" @noRuleClashSoFar -1 <= rangeindex && (forall j int :: { a[j] } 0 <= j && j < len(a) ==> (old(a[j].Id) in aIds) && aIds[old(a[j].Id)]) && (forall k int :: { b[k] } 0 <= k && k <= rangeindex ==> !((b[k].Id in aIds) && aIds[b[k].Id]))
+//vc:  invariant[C04] 4 "for i := 1; ; i++" @ruleIdsUntouchedWhileSearching (forall q *nsxRule :: { q.Id } q.Id == loopold(q.Id)) && (forall n string :: { aIds[n] } ((n in aIds) && aIds[n]) == loopold((n in aIds) && aIds[n]))
+//vc:  assert[C04] at "ru.Id = newId" @newIdNotATargetId !((newId in bIds) && bIds[newId])
 //vc:  ensures[C04] @deviceRuleIdsKnown forall j int :: { a[j] } 0 <= j && j < len(a) ==> (old(a[j].Id) in aIds) && aIds[old(a[j].Id)]
 //vc:  ensures[C04] @netspocRuleIdsFree forall k int :: { b[k] } 0 <= k && k < len(b) ==> !((b[k].Id in aIds) && aIds[b[k].Id])
 
